@@ -201,8 +201,19 @@ def run_example(ex):
             if reuse and out_list is not None and out_proj == t["proj"]:
                 kw["out"] = out_list
             o = ORACLE.ask({"world": widx, "op": "tokenize", "text": text, "mode": eff, "subset": t["raw_subset"]})
+            # a Morpheme object that outlives the reuse of its list: reading it afterwards may raise,
+            # it must not take the interpreter down
+            stale = None
+            if "out" in kw and len(kw["out"]) > 0:
+                stale = kw["out"][len(kw["out"]) - 1]
             try:
                 ml = t["tok"].tokenize(text, **kw)
+                if stale is not None:
+                    try:
+                        stale.surface(); stale.begin(); stale.end(); stale.part_of_speech(); stale.normalized_form(); repr(stale); stale.split(MODES["A"])
+                    except BaseException as e:
+                        if isinstance(e, (KeyboardInterrupt, SystemExit)):
+                            raise
             except Exception as e:  # SudachiError on rejected input
                 if o.get("ok"):
                     raise Violation("python-raises", "tokenize(%r, mode=%s) raised %r, the library succeeds" % (text, eff, e))
